@@ -1,15 +1,16 @@
 (* C10  Absence is dead time: no work, no cost, and it only stretches the
    schedule.  Statements only; proofs in Proofs/C10Proof.v, C0708Proof.v.
-   PARTIAL: (e) "an individually absent resource contributes nothing" is proved
-   in the form "a resource in state ABSENCE contributes 0 and costs 0"; that
-   the state is ABSENCE exactly at the listed steps is searched by the oracle.
+   (e) "an individually absent resource contributes nothing" is proved per
+   state ("a resource in state ABSENCE contributes 0 and costs 0") and at run
+   level (the state is ABSENCE in every allocated / performed / recorded
+   snapshot of a step in the resource's own list).
    The deletion clause (f) is proved for the task priority rules that do not
    read PERT values (2, 3, 5, 6, 7, 8) and for TSLACK / EST on finish-to-start
    DAGs, with the auto-task flag off or without automatic tasks; otherwise it
    is searched (rule 4, FIFO, has the recorded finding). *)
 From Coq Require Import List ZArith QArith Bool Arith.
 From PV Require Import Model.Types Model.Sim Model.LogEdit Model.Example Proofs.Base Proofs.RunLemmas Proofs.C01Proof
-  Proofs.C02Proof Proofs.LogsProof Proofs.C0708Proof Proofs.C10Proof Proofs.C13Proof Proofs.C12Proof Proofs.KeyCong Proofs.C10Del Proofs.C10Final.
+  Proofs.C02Proof Proofs.LogsProof Proofs.C0708Proof Proofs.C10Proof Proofs.C13Proof Proofs.C12Proof Proofs.C03Res Proofs.KeyCong Proofs.C10Del Proofs.C10Final.
 Import ListNotations.
 Open Scope nat_scope.
 
@@ -155,3 +156,34 @@ Proof.
   - intros u e. destruct u as [|[|[|u]]]; cbn; intuition (subst; cbn; auto with arith).
   - intros v Hv. exact Hv.
 Qed.
+
+(* (e) at run level: in every allocated / performed / recorded snapshot of
+   every run a worker or facility whose own absence list contains the step is
+   in state ABSENCE (it stays so through the whole step), hence contributes no
+   progress to any task and costs nothing (C03's resource-state invariant) *)
+Theorem C10_individually_absent_resource_is_dead : forall c,
+  (forall w, In w (all_workers c) -> w < nW c) -> NoDup (all_workers c) ->
+  (forall p f, In f (wp_facs c p) -> f < nF c) ->
+  forall o s, o_init_state o = true ->
+  Forall (fun ob : obs => snd (fst ob) <> PUpdated ->
+            let x := snd ob in
+            (forall w t, w < nW c -> mem (time x) (w_abs c w) = true ->
+               rst (wd x w) = RAbsence /\ w_progress c x w t = 0%Q /\ rcost true (w_cost c w) (wd x w) = 0%Q)
+            /\ (forall f t, f < nF c -> mem (time x) (f_abs c f) = true ->
+               rst (fd x f) = RAbsence /\ f_progress c x f t = 0%Q /\ rcost true (f_cost c f) (fd x f) = 0%Q))
+         (snd (simulate c o s)).
+Proof.
+  intros c H1 H2 H3 o s Hs.
+  pose proof (C03Res.resources_all_runs c H1 H2 H3 o s Hs) as H.
+  eapply Forall_impl; [|exact H]. intros [[k ph] x]. cbn [fst snd]. intros Hx Hph.
+  destruct ph; [contradiction Hph; reflexivity| | |]; destruct Hx as [Hw Hf]; split.
+  all: try (intros w t Hlt Hm; assert (E : rst (wd x w) = RAbsence)
+              by (rewrite (Hw w Hlt); unfold C03Res.Rexp; rewrite Hm, orb_true_r; reflexivity);
+            split; [exact E|];
+            destruct (C10_absent_resource_contributes_nothing c x w 0 t) as [A _]; apply A; exact E).
+  all: intros f t Hlt Hm; assert (E : rst (fd x f) = RAbsence)
+         by (rewrite (Hf f Hlt); unfold C03Res.Rexp; rewrite Hm, orb_true_r; reflexivity);
+       split; [exact E|];
+       destruct (C10_absent_resource_contributes_nothing c x 0 f t) as [_ A]; apply A; exact E.
+Qed.
+Print Assumptions C10_individually_absent_resource_is_dead.
